@@ -2590,11 +2590,16 @@ void Analyser::AnalyserImpl::analyseModel(const ModelPtr &model)
         for (const auto &externalVariable : mExternalVariables) {
             auto variable = externalVariable->variable();
 
+            if (variable == nullptr) {
+                continue;
+            }
+
             if (owningModel(variable) != model) {
                 auto issue = Issue::IssueImpl::create();
+                auto variableComponent = owningComponent(variable);
 
                 issue->mPimpl->setDescription("Variable '" + variable->name()
-                                              + "' in component '" + owningComponent(variable)->name()
+                                              + "' in component '" + ((variableComponent != nullptr) ? variableComponent->name() : std::string())
                                               + "' is marked as an external variable, but it belongs to a different model and will therefore be ignored.");
                 issue->mPimpl->setLevel(Issue::Level::MESSAGE);
                 issue->mPimpl->setReferenceRule(Issue::ReferenceRule::ANALYSER_EXTERNAL_VARIABLE_DIFFERENT_MODEL);
@@ -3304,7 +3309,8 @@ AnalyserExternalVariablePtrs::const_iterator Analyser::AnalyserImpl::findExterna
     return std::find_if(mExternalVariables.begin(), mExternalVariables.end(), [=](const auto &ev) {
         auto variable = ev->variable();
 
-        return (owningModel(variable) == model)
+        return (owningComponent(variable) != nullptr)
+               && (owningModel(variable) == model)
                && (owningComponent(variable)->name() == componentName)
                && (variable->name() == variableName);
     });
@@ -3396,6 +3402,10 @@ void Analyser::analyseModel(const ModelPtr &model)
 
 bool Analyser::addExternalVariable(const AnalyserExternalVariablePtr &externalVariable)
 {
+    if (externalVariable == nullptr) {
+        return false;
+    }
+
     if (std::find(pFunc()->mExternalVariables.begin(), pFunc()->mExternalVariables.end(), externalVariable) == pFunc()->mExternalVariables.end()) {
         pFunc()->mExternalVariables.push_back(externalVariable);
 
